@@ -369,8 +369,17 @@ def run_rpf(case: Dict[str, Any], tmp: str) -> Dict[str, Any]:
     timeout = case.get("timeout")
     start = time.monotonic_ns()
     iterable = (a for a in args) if case.get("generator") else args
+    bystander = None
+    if case.get("bystander_ms"):
+        # an unrelated child process of the caller that ends while the batch is running
+        import multiprocessing
+        bystander = multiprocessing.Process(target=time.sleep, args=(case["bystander_ms"] / 1000,))
+        bystander.start()
     obs = _guarded(lambda: base.parallel_function(real_task, iterable, cpus=cpus, timeout=timeout),
                    case.get("limit", 30.0))
+    if bystander is not None:
+        obs["bystander_exited_during_batch"] = not bystander.is_alive()
+        bystander.join(5.0)
     if obs.get("blocked"):
         _kill_children()
     # completion order of the chunks, reconstructed from the log
